@@ -200,10 +200,17 @@ class CFG:
         while dq:
             a = dq.popleft()
             for b, k in self.succ[a]:
-                if not self._ok(a, k, kinds, exc_from) or b in seen or b in avoid:
+                if not self._ok(a, k, kinds, exc_from) or b in avoid:
                     continue
-                prev[b] = a
+                if b in seen and not (b == src and b in dsts):
+                    continue
+                prev.setdefault(b, a) if b == src else prev.__setitem__(b, a)
                 if b in dsts:
+                    if b == src:
+                        p = [b, a]
+                        while p[-1] != src:
+                            p.append(prev[p[-1]])
+                        return list(reversed(p))
                     p = [b]
                     while p[-1] != src:
                         p.append(prev[p[-1]])
